@@ -2,17 +2,20 @@
 verus! {
 // R5: layer structs reduced to the training flag; a feedback block's flag state is abstract (`fb_mode`), set by its
 // `training` method whose own body is the first unit below.
-pub mod dense { pub struct Dense { pub training: bool } }
-pub mod convolution { pub struct Convolution { pub training: bool } }
-pub mod deconvolution { pub struct Deconvolution { pub training: bool } }
-pub mod maxpool { pub struct Maxpool { pub flatten: bool } }
+#[verifier::external_body] pub struct Rest { _p: u8 }   // every other field of a layer (weights, shapes, dropout rate, ...)
+pub mod dense { pub struct Dense { pub training: bool, pub rest: super::Rest } }
+pub mod convolution { pub struct Convolution { pub training: bool, pub rest: super::Rest } }
+pub mod deconvolution { pub struct Deconvolution { pub training: bool, pub rest: super::Rest } }
+pub mod maxpool { pub struct Maxpool { pub flatten: bool, pub rest: super::Rest } }
 pub mod feedback {
     use vstd::prelude::*;
     pub struct Feedback { pub flatten: bool, pub mode: Ghost<bool> }
     pub uninterp spec fn fb_mode(f: Feedback) -> bool;
+    pub uninterp spec fn fb_rest(f: Feedback) -> int;    // everything of a block but its inner flags
     impl Feedback {
+        // (proved on the real body: unit feedback.training.loop below)
         #[verifier::external_body]
-        pub fn training(&mut self, train: bool) ensures fb_mode(*final(self)) == train { }
+        pub fn training(&mut self, train: bool) ensures fb_mode(*final(self)) == train, fb_rest(*final(self)) == fb_rest(*old(self)) { }
     }
 }
 pub mod network {
@@ -25,8 +28,8 @@ pub mod network {
     }
 }
 use network::Layer;
-pub struct Network {}
-pub struct FeedbackBlock {}
+pub struct Network { pub layers: Vec<Layer> }
+pub struct FeedbackBlock { pub layers: Vec<Layer> }
 
 /// does this layer apply dropout in its forward pass?  (max-pool has no dropout)
 pub open spec fn trains(l: Layer) -> bool {
@@ -105,6 +108,136 @@ fn validate_epilogue_elem(layer: &mut Layer)
     ensures has_flag(*final(layer)) ==> trains(*final(layer)), //@ob restored
 {
     //@body file=src/network.rs impl=Network fn=validate part="region:/^                match layer \{/../^                match layer \{/" loops=0
+    //@endbody
+}
+}
+//@endunit
+
+// ---- the whole flag loops, for every layer sequence ------------------------------------------------------------------------------
+/// same layer, possibly with another training flag: kind and every other field unchanged
+pub open spec fn same_but_flag(a: Layer, b: Layer) -> bool {
+    match (a, b) {
+        (Layer::Dense(x), Layer::Dense(y)) => x.rest == y.rest,
+        (Layer::Convolution(x), Layer::Convolution(y)) => x.rest == y.rest,
+        (Layer::Deconvolution(x), Layer::Deconvolution(y)) => x.rest == y.rest,
+        (Layer::Maxpool(x), Layer::Maxpool(y)) => x == y,
+        (Layer::Feedback(x), Layer::Feedback(y)) => feedback::fb_rest(x) == feedback::fb_rest(y),
+        _ => false,
+    }
+}
+pub open spec fn only_flags_differ(a: Seq<Layer>, b: Seq<Layer>) -> bool { a.len() == b.len() && forall|i: int| 0 <= i < a.len() ==> same_but_flag(#[trigger] a[i], b[i]) }
+pub open spec fn dense_training(l: Layer) -> bool { l is Dense && trains(l) }
+
+//@unit validate.prologue.loop prop=C09
+impl Network {
+fn validate_prologue(&mut self) -> (r: bool)
+    requires true,
+        //@requires-extra
+    ensures
+        forall|i: int| 0 <= i < final(self).layers@.len() ==> !trains(#[trigger] final(self).layers@[i]), //@ob no_layer_applies_dropout_while_validating
+        only_flags_differ(old(self).layers@, final(self).layers@), //@ob nothing_but_flags_touched
+        r == (exists|i: int| 0 <= i < old(self).layers@.len() && dense_training(#[trigger] old(self).layers@[i])), //@ob remembers_whether_training
+{
+    //@body file=src/network.rs impl=Network fn=validate part="region:/let mut training: bool = false;/../for layer in &mut self\.layers \{/" rewrites=R40 loops=1
+    //@loop 1
+            invariant
+                self.layers@.len() == old(self).layers@.len(),
+                forall|i: int| 0 <= i < __i ==> !trains(#[trigger] self.layers@[i]), //@ob no_layer_applies_dropout_while_validating.inv
+                forall|i: int| 0 <= i < self.layers@.len() ==> same_but_flag(#[trigger] old(self).layers@[i], self.layers@[i]), //@ob nothing_but_flags_touched.inv
+                forall|i: int| __i <= i < self.layers@.len() ==> #[trigger] self.layers@[i] == old(self).layers@[i],
+                training == (exists|i: int| 0 <= i < __i && dense_training(#[trigger] old(self).layers@[i])), //@ob remembers_whether_training.inv
+    //@end
+    //@endbody
+    training
+}
+}
+//@endunit
+
+//@unit validate.epilogue.loop prop=C09
+impl Network {
+fn validate_epilogue(&mut self, training: bool)
+    requires true,
+        //@requires-extra
+    ensures
+        training ==> forall|i: int| 0 <= i < final(self).layers@.len() ==> (has_flag(#[trigger] final(self).layers@[i]) ==> trains(final(self).layers@[i])), //@ob training_mode_restored
+        !training ==> final(self).layers@ == old(self).layers@, //@ob untouched_when_not_training
+        only_flags_differ(old(self).layers@, final(self).layers@), //@ob nothing_but_flags_touched
+{
+    //@body file=src/network.rs impl=Network fn=validate part="region:/if training \{/../if training \{/" rewrites=R40 loops=1
+    //@loop 1
+            invariant
+                training, self.layers@.len() == old(self).layers@.len(),
+                forall|i: int| 0 <= i < __i ==> (has_flag(#[trigger] self.layers@[i]) ==> trains(self.layers@[i])), //@ob training_mode_restored.inv
+                forall|i: int| 0 <= i < self.layers@.len() ==> same_but_flag(#[trigger] old(self).layers@[i], self.layers@[i]), //@ob nothing_but_flags_touched.inv
+                forall|i: int| __i <= i < self.layers@.len() ==> #[trigger] self.layers@[i] == old(self).layers@[i],
+    //@end
+    //@endbody
+}
+}
+//@endunit
+
+//@unit learn.entry.loop prop=C09
+impl Network {
+fn learn_entry(&mut self)
+    requires true,
+        //@requires-extra
+    ensures
+        forall|i: int| 0 <= i < final(self).layers@.len() ==> (has_flag(#[trigger] final(self).layers@[i]) ==> trains(final(self).layers@[i])), //@ob every_layer_in_training_mode
+        only_flags_differ(old(self).layers@, final(self).layers@), //@ob nothing_but_flags_touched
+{
+    //@body file=src/network.rs impl=Network fn=learn part="region:/self\.layers\.iter_mut\(\)\.for_each\(\|layer\| match layer \{/../\}\);/" rewrites=R41 loops=1
+    //@loop 1
+            invariant
+                self.layers@.len() == old(self).layers@.len(),
+                forall|i: int| 0 <= i < __i ==> (has_flag(#[trigger] self.layers@[i]) ==> trains(self.layers@[i])), //@ob every_layer_in_training_mode.inv
+                forall|i: int| 0 <= i < self.layers@.len() ==> same_but_flag(#[trigger] old(self).layers@[i], self.layers@[i]), //@ob nothing_but_flags_touched.inv
+                forall|i: int| __i <= i < self.layers@.len() ==> #[trigger] self.layers@[i] == old(self).layers@[i],
+    //@end
+    //@endbody
+}
+}
+//@endunit
+
+//@unit learn.exit.loop prop=C09
+impl Network {
+fn learn_exit(&mut self)
+    requires true,
+        //@requires-extra
+    ensures
+        // after learn() returns no layer applies dropout: the network predicts like one configured without dropout
+        forall|i: int| 0 <= i < final(self).layers@.len() ==> !trains(#[trigger] final(self).layers@[i]), //@ob no_layer_applies_dropout_after_training
+        only_flags_differ(old(self).layers@, final(self).layers@), //@ob nothing_but_flags_touched
+{
+    //@body file=src/network.rs impl=Network fn=learn part="region:/for layer in &mut self\.layers \{/../for layer in &mut self\.layers \{/" rewrites=R40 loops=1
+    //@loop 1
+            invariant
+                self.layers@.len() == old(self).layers@.len(),
+                forall|i: int| 0 <= i < __i ==> !trains(#[trigger] self.layers@[i]), //@ob no_layer_applies_dropout_after_training.inv
+                forall|i: int| 0 <= i < self.layers@.len() ==> same_but_flag(#[trigger] old(self).layers@[i], self.layers@[i]), //@ob nothing_but_flags_touched.inv
+                forall|i: int| __i <= i < self.layers@.len() ==> #[trigger] self.layers@[i] == old(self).layers@[i],
+    //@end
+    //@endbody
+}
+}
+//@endunit
+
+//@unit feedback.training.loop prop=C09
+impl FeedbackBlock {
+fn training(&mut self, train: bool)
+    requires true,
+        //@requires-extra
+    ensures
+        forall|i: int| 0 <= i < final(self).layers@.len() ==> (has_flag(#[trigger] final(self).layers@[i]) ==> trains(final(self).layers@[i]) == train), //@ob every_inner_flag_follows_the_argument
+        only_flags_differ(old(self).layers@, final(self).layers@), //@ob nothing_but_flags_touched
+{
+    //@body file=src/feedback.rs impl=Feedback fn=training part=whole rewrites=R13,R41 loops=1
+    //@loop 1
+            invariant
+                self.layers@.len() == old(self).layers@.len(),
+                forall|i: int| 0 <= i < __i ==> (has_flag(#[trigger] self.layers@[i]) ==> trains(self.layers@[i]) == train), //@ob every_inner_flag_follows_the_argument.inv
+                forall|i: int| 0 <= i < self.layers@.len() ==> same_but_flag(#[trigger] old(self).layers@[i], self.layers@[i]), //@ob nothing_but_flags_touched.inv
+                forall|i: int| __i <= i < self.layers@.len() ==> #[trigger] self.layers@[i] == old(self).layers@[i],
+    //@end
     //@endbody
 }
 }
